@@ -568,6 +568,63 @@ def check_entry_table(ctx, stats):
     return len(progs)
 
 
+# ----------------------------------------------------------------------------------------------
+# "every token kind at every loop position": for each parser loop a minimal valid construct with each token of the
+# lexer vocabulary injected before / after each step of the loop body.  A recovery arm that stops consuming makes
+# one of these spin: the per-case watchdog turns the hang into a concrete input.
+
+def loop_token_family(vocab):
+    kws, ops = vocab
+    toks = list(kws) + list(ops) + ["1", '"s"', "a", "A", "#", "@", "é", '"abc', "/* c */", "// c\n", "2147483648", "\x0b"]
+    W = lambda body: "class Main { function main(): unit = { let x = 1; let _ = " + body + "; } }"
+    # `\x00` marks the injection slot
+    templates = {
+        "match-cases": [W("match (x) { \x00 A -> 1, B -> 2 }"), W("match (x) { A \x00 -> 1, B -> 2 }"), W("match (x) { A -> \x00 1, B -> 2 }"),
+                        W("match (x) { A -> 1 \x00 , B -> 2 }"), W("match (x) { A -> 1, \x00 B -> 2 }"), W("match (x) { A -> 1, B -> 2 \x00 }"),
+                        W("match (x) { A -> 1, B -> 2, \x00 }"), W("match (x) \x00 { A -> 1 }")],
+        "block-statements": ["class Main { function main(): unit = { \x00 let a = 1; a } }", "class Main { function main(): unit = { let a = 1; \x00 a } }",
+                             "class Main { function main(): unit = { let a = 1 \x00 ; a } }", "class Main { function main(): unit = { let a = 1; a \x00 } }",
+                             "class Main { function main(): unit = { let \x00 a = 1; a } }", "class Main { function main(): unit = { f(); \x00 g(); } }"],
+        "comma-lists": [W("f(\x00 1, 2)"), W("f(1 \x00 , 2)"), W("f(1, \x00 2)"), W("f(1, 2 \x00 )"), W("(1, \x00 2)"), W("f<int, \x00 bool>(1)"),
+                        "class Main(val a: int, \x00 val b: int) { }", "class Main { function f(a: int, \x00 b: int): unit = {} }",
+                        "class Main(A(int, \x00 bool), \x00 B) { }", W("{ let (a, \x00 b) = x; 1 }"), W("{ let {a, \x00 b} = x; 1 }"), W("(a, \x00 b) -> 1")],
+        "class-members": ["class Main { \x00 function f(): unit = {} function g(): unit = {} }", "class Main { function f(): unit = {} \x00 function g(): unit = {} }",
+                          "class Main { function f(): unit = {} function g(): unit = {} \x00 }", "class Main { function \x00 f(): unit = {} }",
+                          "interface I { \x00 method m(): int method n(): int }", "interface I { method m(): int \x00 method n(): int }"],
+        "toplevel": ["\x00 class A {} class B {}", "class A {} \x00 class B {}", "class A {} class B {} \x00", "class \x00 A {}", "class A \x00 {}",
+                     "private \x00 class A {}", "interface I \x00 {}"],
+        "imports": ["\x00 import { A } from b.C\nclass M {}", "import \x00 { A } from b.C\nclass M {}", "import { A, \x00 B } from b.C\nclass M {}",
+                    "import { A } \x00 from b.C\nclass M {}", "import { A } from \x00 b.C\nclass M {}", "import { A } from b. \x00 C\nclass M {}",
+                    "import { A } from b.C \x00\nclass M {}", "import { A } from b.C\n\x00 import { D } from e\nclass M {}"],
+        "or-patterns-and-ifs": [W("match (x) { A(_) | \x00 B(_) -> 1 }"), W("if \x00 x { 1 } else { 2 }"), W("if x { 1 } \x00 else { 2 }"),
+                                W("if x { 1 } else \x00 if y { 2 } else { 3 }"), W("if let \x00 A(v) = x { 1 } else { 2 }"), W("a.\x00b.c"), W("a \x00 + b * c")],
+    }
+    out = []
+    for loop, ts in templates.items():
+        for ti, t in enumerate(ts):
+            for tok in toks:
+                out.append((f"{loop}#{ti}", t.replace("\x00", " " + tok + " ")))
+            out.append((f"{loop}#{ti}", t.split("\x00")[0]))          # EOF at the slot
+    return out
+
+
+def check_loop_family(ctx, vocab, stats, label, watchdog_ms=3000, every=1, offset=0):
+    fam = loop_token_family(vocab)[offset::every]
+    cases = [[("Main", t)] for _, t in fam]
+    answers = run_full(cases, watchdog_ms)
+    n_bad = 0
+    for (slot, t), a in zip(fam, answers):
+        stats["full"]["loop-" + a.split(" ")[0]] = stats["full"].get("loop-" + a.split(" ")[0], 0) + 1
+        if a.startswith("ok ") or a == "skipped":
+            continue
+        n_bad += 1
+        if stats["reported"] < 3:
+            stats["reported"] += 1
+            ctx.violation(f"the pipeline breaks C05 on a token injected into a parser loop ({slot}): " + describe_full(a),
+                          {"protocol": "full", "label": label, "modules": [["Main", t]], "impl": a, "impl_decoded": describe_full(a), "loop_slot": slot})
+    return len(cases), n_bad
+
+
 def repo_sources():
     out = []
     for f in sorted(glob.glob(os.path.join(common.REPO, "tests", "*.sam"))) + sorted(glob.glob(os.path.join(common.REPO, "std", "*.sam"))):
@@ -579,14 +636,21 @@ def repo_sources():
     return out
 
 
-def run_extractor(ctx, scripts=("c05_keywords.py", "c05_parser_loops.py")):
+def run_extractor(ctx, scripts=("c05_keywords.py", "c05_parser_loops.py"), deferred=None):
+    """Runs the translators.  A failure (source shape changed) is a broken tie: recorded at once as a
+    no-failing-input violation, or - when `deferred` is a list - handed back so that the caller can first search for
+    a concrete failing input."""
     ok = True
     for script in scripts:
         rc, out = common.sh([sys.executable, os.path.join(common.VERIF, "extract", script)], cwd=common.VERIF)
         if rc != 0:
             ok = False
-            ctx.violation(f"translator extract/{script} can no longer read the source it models: " + out.strip()[-300:],
-                          {"broken": f"extract/{script} -> lean/SamVerif/Generated", "log": out[-2000:]}, no_input=True)
+            item = (f"translator extract/{script} can no longer read the source it models: " + out.strip()[-300:],
+                    {"broken": f"extract/{script} -> lean/SamVerif/Generated", "log": out[-2000:]})
+            if deferred is not None:
+                deferred.append(item)
+            else:
+                ctx.violation(item[0], item[1], no_input=True)
     return ok
 
 
@@ -612,7 +676,8 @@ def read_corpus(prop):
 
 def run(ctx):
     rng = ctx.rng
-    extractor_ok = run_extractor(ctx)
+    broken_ties = []
+    extractor_ok = run_extractor(ctx, deferred=broken_ties)
     stats = {"kinds": {}, "errs": {}, "full": {}, "outcome": {}, "reported": 0, "entry": {}}
 
     def search():
@@ -622,7 +687,11 @@ def run(ctx):
         except Exception:
             return False
         before = len(ctx.violations)
-        # the regression corpus first (it holds the inputs on which a non-consuming recovery arm spins)
+        # a changed parser-loop shape / broken progress proof: every token kind at every loop position, first
+        check_loop_family(ctx, vocab, stats, "search after broken proof/tie: loop-token family", watchdog_ms=2500)
+        if len(ctx.violations) > before:
+            return True
+        # the regression corpus (it holds the inputs on which a non-consuming recovery arm spins)
         _, cfull0 = read_corpus(PROP)
         check_full_batch(ctx, cfull0, "search after broken proof: corpus", stats, timeout_ms=3000)
         if len(ctx.violations) > before:
@@ -637,6 +706,17 @@ def run(ctx):
         return len(ctx.violations) > before
 
     res = common.proof_gate(ctx, search)
+    if broken_ties:
+        # a translator could not read its source: search for a concrete failing input before reporting the broken tie
+        found = False
+        if os.path.exists(common.harness_bin(PROP)):
+            try:
+                found = search()
+            except Exception:
+                found = False
+        if not found:
+            for what, payload in broken_ties:
+                ctx.violation(what, payload, no_input=True)
     if not os.path.exists(common.harness_bin(PROP)) or not os.path.exists(common.driver_bin(PROP)):
         return ctx.finish(res, trusted=common.TRUSTED_COMMON)
     vocab = load_vocab()
@@ -660,6 +740,14 @@ def run(ctx):
     probes_full = [[("Main", "class Main { function main(): unit = {} } /**/")],
                    [("Main", "class Main { function main(): unit = { Process.println(Str.fromInt(2147483647 + 1)) } }")]]
     check_full_batch(ctx, probes_full, "probe", stats)
+
+    # 1b. every token kind at every position of every parser loop (deterministic; hang = watchdog = concrete input)
+    loop_cases = 0
+    if not ctx.violations:
+        # quick: a third of the family (the slice rotates with the seed; the match-case and class-member slots of the
+        # keyword tokens are always in); thorough and the broken-tie search: all of it
+        loop_cases, _ = check_loop_family(ctx, vocab, stats, "loop-token family", watchdog_ms=ctx.scale(3000, 10000),
+                                          every=ctx.scale(3, 1), offset=ctx.seed % ctx.scale(3, 1))
 
     # 2. `lex` correspondence + lexer oracle: three streams
     n_lex = ctx.scale(4000, 300000)
@@ -833,7 +921,7 @@ def run(ctx):
                 "resynchronisation or the integer range rule); measured by regex on the generated text",
         "samples": samples,
         "traces_validated_against_impl": done,
-        "lex_cases": done, "full_cases": fdone,
+        "lex_cases": done, "full_cases": fdone, "loop_token_family_cases": loop_cases,
         "lex_generator_histogram": gen_hist, "full_generator_histogram": fhist,
         "token_kind_histogram": stats["kinds"], "syntax_error_histogram": stats["errs"],
         "entry_table_compile_histogram": stats["entry"],
